@@ -38,6 +38,10 @@ var checks = map[string][]HarnessSpec{
 	"C09": {
 		{Name: "verifC09KeySets", Pkg: ".", Labels: []string{"ran", "accepted", "passthrough"}},
 	},
+	"C10": {
+		{Name: "verifC10AfterReturn", Pkg: ".", Labels: []string{"after-return"}},
+		{Name: "verifC10WhileBlocked", Pkg: ".", Labels: []string{"cancelled", "ok"}},
+	},
 	"C11": {
 		{Name: "verifC11Encode", Pkg: ".", Labels: []string{"roundtrip"}},
 		{Name: "verifC11Refuse", Pkg: ".", Labels: []string{"refused"}},
@@ -68,6 +72,15 @@ var checks = map[string][]HarnessSpec{
 		{Name: "verifC16MinTTL", Pkg: ".", Labels: []string{"minttl"}},
 		{Name: "verifC16Expiry", Pkg: ".", Labels: []string{"hit", "miss"}},
 		{Name: "verifC16Cache", Pkg: ".", Labels: []string{"history", "cache-hit"}},
+	},
+	"C17": {
+		{Name: "verifC17Dial", Pkg: ".", Labels: []string{"dialed", "connected", "failed"}},
+	},
+	"C18": {
+		{Name: "verifC18Dial", Pkg: ".", Labels: []string{"returned", "connected", "all-failed", "quiesced"}},
+	},
+	"C19": {
+		{Name: "verifC19RoundTrip", Pkg: ".", Labels: []string{"roundtrip", "h3", "https", "plaintext-refused"}},
 	},
 	"C20": {
 		{Name: "verifC20Publish", Mod: "publish", Pkg: ".", Labels: []string{"published"}},
